@@ -648,11 +648,14 @@ def render(tok, a):
 
 
 def notes_set(seqs):
-    out = set()
+    """Multiset of note-on events (track, pitch, tick, velocity) of detokenised sequences.  Note-ons rather than paired
+    notes: an arbitrary stream may place overlapping notes of one pitch, which have no unique pairing."""
+    import collections
+    out = collections.Counter()
     for i, s in enumerate(seqs):
-        ns, _ = P.notes_of_abs(P.raw_abs(s))
-        for n in ns:
-            out.add((i, n["p"], n["s"], n["e"], n["v"]))
+        for m in P.raw_abs(s):
+            if m["ty"] == "on":
+                out[(i, m["p"], m["t"], m["v"])] += 1
     return out
 
 
@@ -678,12 +681,12 @@ def info_case(case):
         line["info"] = {"pos": [num(x) for x in info["info_position"]], "time": [num(x) for x in info["info_time"]],
                         "timeBar": [num(x) for x in info["info_time_bar"]], "pitch": [num(x) for x in info["info_pitch"]],
                         "cof": [num(x) for x in info["info_circle_of_fifths"]]}
-        placed, prev = [], set()
+        placed, prev = [], notes_set([])
         for i in range(n):
             cur = notes_set(tok.detokenise(list(tokens[:i + 1])))
             new = cur - prev
-            if len(new) == 1:
-                (trk, p, s, e, v), = new
+            if sum(new.values()) == 1:
+                (trk, p, s, v), = new
                 placed.append({"note": True, "s": s, "p": p})
             else:
                 placed.append({"note": False, "s": -1, "p": -1})
